@@ -156,3 +156,15 @@ package dns64
 //@   nosafety all pre
 //@   assert at return#1: result3 == 0 && result0 == m
 //@   assert at return#2: result3 != 0 && result0 == lastret("(*github.com/miekg/dns.Msg).Copy") && calls("(*github.com/miekg/dns.Msg).Copy") == 1
+//@
+//@ # ---- C20: an IPv4 address is excluded from synthesis exactly when SOME configured network contains it, by the
+//@ # library's own containment test (no hand-rolled range arithmetic that could wrap at the top of the address space):
+//@ # every network is asked until one says yes; a "no" from all of them is the only way to return false
+//@ func excludedV4
+//@   abstract
+//@   nosafety all pre
+//@   loop 1 invariant calls("(*net.IPNet).Contains") == rangeidx && (rangeidx > 0 ==> !lastret("(*net.IPNet).Contains"))
+//@   assert at call (*net.IPNet).Contains#1: arg0 == n && arg1 == v4
+//@   assert at return#1: !result && len(exclusions) == 0
+//@   assert at return#2: result && lastret("(*net.IPNet).Contains")
+//@   assert at return#3: !result && calls("(*net.IPNet).Contains") == len(exclusions)
